@@ -1,6 +1,19 @@
 (* C18 — Base64 conforms to RFC 4648 and round-trips.  Property theorems only. *)
-From Rws Require Import Str Utf8 Base64 Base64Proofs.
+From Rws Require Import Str Utf8 Base64 Base64Proofs C18Proof.
 Open Scope N_scope.
+(* the encoder is the RFC 4648 section 4 encoding (table and padding written out independently in Base64Proofs.v) of every byte string *)
 Theorem C18_encode_is_rfc4648 : forall bs, bytes_ok bs -> encode bs = Some (rfc4648 bs).
 Proof. exact encode_is_rfc4648. Qed.
 Check C18_encode_is_rfc4648 : forall bs, bytes_ok bs -> encode bs = Some (rfc4648 bs).
+(* the decoder inverts the standard encoding of every byte string, of any length *)
+Theorem C18_decode_rfc4648 : forall bs, bytes_ok bs -> decode (rfc4648 bs) = Some bs.
+Proof. exact decode_rfc4648. Qed.
+Theorem C18_round_trip : forall bs, bytes_ok bs -> match encode bs with Some t => decode t = Some bs | None => False end.
+Proof. exact round_trip. Qed.
+(* the decoding loop, one group: the four sextets of the alphabet characters are recombined as RFC 4648 says *)
+Theorem C18_group : forall d1 d2 d3 d4, d1 < 64 -> d2 < 64 -> d3 < 64 -> d4 < 64 ->
+  dec_seq [al d1; al d2; al d3; al d4] = Some [out1 d1 d2; out2 d2 d3; out3 d3 d4].
+Proof. exact dec_seq_sextets. Qed.
+(* rejected texts (observed classes, by evaluation): a character outside the alphabet, a truncated group, a non-ASCII character, three '=' *)
+Theorem C18_rejects : decode [33;61;61;61] = None /\ decode [81;81] = None /\ decode [81;85;74;68;195;169] = None /\ decode [81;61;61;61] = None.
+Proof. vm_compute. repeat split. Qed.
